@@ -369,6 +369,7 @@ Section Sim.
     - (* storage Put *)
       unfold st_put, m_st_put. destruct (cid_parse c) as [p|] eqn:Hp; [|apply Hsame].
       rewrite Hc. destruct (m_closed m); [apply Hsame|].
+      rewrite Hf. destruct (m_finalized m); [apply Hsame|].
       destruct (put_one_sim s m c d p HR Hp Hop) as (s' & m' & r & H1 & H2 & HR' & Hpos).
       exists s', m', r. split; [exact H1|]. split; [exact H2|]. split; [exact HR'|lia].
     - (* storage Has *)
@@ -387,7 +388,10 @@ Section Sim.
     - (* storage Roots *)
       rewrite Hr. apply Hsame.
     - (* storage Finalize *)
-      unfold st_finalize, m_st_finalize. rewrite Hc, Ho, Hf. destruct (m_closed m) eqn:Emc; [apply Hsame|].
+      unfold st_finalize, m_st_finalize. rewrite Hc, Ho, Hf. destruct (m_finalized m) eqn:Emf.
+      { pose proof (R_set_flags s m true true HR) as HRs.
+        finish (set_flags s true true) (m_set_flags m true true) (OErr EOther) HRs. cbn [set_flags ws_pos]. lia. }
+      rewrite <- Emf. destruct (m_closed m) eqn:Emc; [apply Hsame|].
       pose proof (R_set_flags s m true (m_finalized m) HR) as HR'.
       destruct (w_v1 o) eqn:Hv1.
       + finish (set_flags s true (m_finalized m)) (m_set_flags m true (m_finalized m)) ONil HR'.
